@@ -214,17 +214,6 @@ pub fn judge(ctx: &mut Ctx, index: u64, bytes: &[u8], rt: &RoundTrip, what: &str
             ctx.known("D11-scroll-speed-below-0.1", "taiko/mania scroll speed below 0.1 comes back as 0.1 (written through the slider-velocity clamp)".into());
         }
     }
-    // D18: control points closer than f64::EPSILON are regrouped when their lines become adjacent
-    if cmp::has_times_closer_than_epsilon(&rt.m1.control_points) {
-        let before = diffs.len();
-        diffs.retain(|d| !(d == "timing_points" || d.starts_with("timeline:")));
-        if diffs.len() != before {
-            ctx.known("D18-timing-points-closer-than-epsilon", "control points whose times differ by less than f64::EPSILON (only next to time zero) are regrouped by the decoder's same-time grouping once their lines are adjacent".into());
-        }
-        if diffs.is_empty() {
-            return true;
-        }
-    }
     // D21: the encoder writes slider nodes with their banks only; a custom sample file given in the per-node field is dropped
     {
         let before = diffs.len();
